@@ -496,12 +496,15 @@ def run_property(pid: str, rulefn: Callable[[Check], None], level: str, tier: st
         source = Source(repo)
         chk = Check(pid, source, tier, seed)
         rulefn(chk)
-        chk.check_floors()
-        und = [o for o in chk.obs if o.verdict == "undecided"]
-        if und:
-            raise Undecided(
-                "; ".join(f"{o.rule} @ {o.where}: {o.desc} [{o.detail}]" for o in und[:5])
-            )
+        # a definite violation is reported even if another rule lost its anchor;
+        # floors / undecided obligations only matter when nothing was violated
+        if not any(o.verdict == "violated" for o in chk.obs):
+            chk.check_floors()
+            und = [o for o in chk.obs if o.verdict == "undecided"]
+            if und:
+                raise Undecided(
+                    "; ".join(f"{o.rule} @ {o.where}: {o.desc} [{o.detail}]" for o in und[:5])
+                )
     except AnalysisError as e:
         msg = f"ANALYSIS-ERROR property={pid} {type(e).__name__}: {e}"
         if not quiet:
